@@ -335,8 +335,12 @@ def run(pid, tier, seed, replay=None, props=None):
 
 def gen_exec_world(rng, i):
     """worlds with many small pieces; thread counts around the number of pieces"""
-    w = W.gen_world(rng, ntorrents=rng.choice([1, 1, 2]))
-    w.threads = rng.choice([0, 1, 2, 2, 3, 3, 4, 5, 8, 16])
+    if i % 3 == 2:
+        w = W.gen_world_many_pieces(rng)
+        w.threads = rng.choice([2, 2, 3, 4, 6])
+    else:
+        w = W.gen_world(rng, ntorrents=rng.choice([1, 1, 2]))
+        w.threads = rng.choice([0, 1, 2, 2, 3, 3, 4, 5, 8, 16])
     w.sched = rng.next() % (2**32)
     w.tag = "threads=%d" % w.threads
     return w
@@ -392,14 +396,21 @@ def exec_line(r):
 def run_exec_cases(worlds):
     with cf.ThreadPoolExecutor(max_workers=C.NCPU) as ex:
         results = list(ex.map(W.execute, worlds))
-    lines, kept = [], []
+    lines, kept, cases = [], [], []
     for r in results:
         el = exec_line(r)
+        if r.result in ("timeout", "abort") and not any(l.startswith("LOG sch DEADLOCK") for l in r.stdout.split("\n")):
+            # the run never returned (a worker waits for ever, or the process died): C05 itself, judged without the model
+            k = C.Case(getattr(r, "line", None) or "exec (no scheduler log)", "RES " + r.result,
+                       "DISAGREE PROPFAIL:c05-not-returned run did not return within the time limit (%s)" % r.result, tag=r.world.tag)
+            k.result = r
+            r.exec_stats = (0, 0, 0)
+            cases.append(k)
+            continue
         if el is None:
             continue
         lines.append(el[0]); kept.append((r, el))
     answers = C.run_model(lines)
-    cases = []
     for (r, el), line, a in zip(kept, lines, answers):
         req, _, obs = line.partition(" | ")
         c = C.Case(req, obs, a, tag=r.world.tag)
